@@ -196,6 +196,12 @@ class SharedMemoryFileBufferedCollection(FileBufferedCollection):
             if self._filename in type(self)._buffer:
                 # Always track all instances pointing to the same data.
 
+                # The data being saved is the new shared content. Operations
+                # that load first already operate on the shared container,
+                # but destructive root operations (clear, reset) save without
+                # loading and may hold a container of their own.
+                type(self)._buffer[self._filename]["contents"] = self._data
+
                 # If all we had to do is set the flag, it could be done without any
                 # check, but we also need to increment the number of modified
                 # items, so we may as well do the update conditionally as well.
